@@ -1,9 +1,11 @@
 """C10 — weighted routines reduce to their binary counterparts on 0/1 input, directed routines to their undirected counterparts on
 symmetric input, weight-ignoring routines return the same for W and binarize(W).
 
-Lean theorems (Props/C10.lean, over the Cluster model): the clustering / transitivity / degree-strength reductions.
-The distance / betweenness / efficiency / assortativity / k-core clauses are checked here on the real code only (pairs of public
-functions on the same matrix); their models belong to the C03 / C08 / C15 slices."""
+Lean theorems (Props/C10.lean): the clustering / transitivity / degree-strength reductions over the Cluster model (and over R for
+the symmetric-weighted clause); distance, global efficiency, betweenness, edge betweenness, distance_bin / reachdist / kcore
+weight-ignoring as corollaries of the C03 / C08 / C15 theorems about their models.  Predicate-only (no theorem): local efficiency,
+assortativity, density, breadthdist, kcoreness, edge_nei_overlap, findwalks, get_components.  Every clause is also checked here on
+the real code (pairs of public functions on the same matrix)."""
 import sys
 from common import *  # noqa
 import cluster_common as cc
@@ -126,17 +128,20 @@ def run_pair(label, f, g, Wf, pred, exact, cond, res, t=2.5, rep=None):
         tol = cc.rep_tol(rep['dtype']); exact = exact and rep['dtype'] != 'float32'
     else:
         mk = lambda: Wf.copy()
-    s1, o1 = call(f, mk(), t=t)
-    s2, o2 = ('timeout', None) if s1 == 'timeout' else call(g, mk(), t=t)
+    # a timed-out call is re-tried once with 10x the budget: only a second timeout counts (a single wall-clock hit on a
+    # loaded machine must not become a verdict)
+    s1, o1 = call(f, mk(), t=t, retry=10)
+    s2, o2 = ('timeout', None) if s1 == 'timeout' else call(g, mk(), t=t, retry=10)
     if rep and ((s1 == 'exc' and cc.rejected_exc(rep['dtype'], o1)) or (s2 == 'exc' and cc.rejected_exc(rep['dtype'], o2))):
         res['rejected'] += 1; return      # one variant visibly rejects this storage type: no claim
     res['npairs'] += 1
+    res['evals'][label] = res['evals'].get(label, 0) + 1
     if s1 == 'timeout' or s2 == 'timeout':
         # these routines are deterministic and finish in milliseconds at n <= 10: a variant that does not return does not
         # "return what its counterpart returns"
         _TIMEOUTS[label] = _TIMEOUTS.get(label, 0) + 1
         res['timeouts'] += 1
-        res['fails'].append((label, pred, {'first': s1, 'second': s2, 'why': 'no result within %.1fs' % t}, cond)); return
+        res['fails'].append((label, pred, {'first': s1, 'second': s2, 'why': 'no result within %.1fs, nor within %.0fs on the retry' % (t, 10 * t)}, cond)); return
     if s1 == 'exc' and s2 == 'exc' and exc_kind(o1) == exc_kind(o2):
         res['both_raise'][label] = res['both_raise'].get(label, 0) + 1; return
     if s1 != 'ok' or s2 != 'ok':
@@ -153,7 +158,7 @@ def run_case(case):
     kind = case['kind']; n = len(W)
     Wf = cc.fl(W)
     sym = cc.is_sym(W)
-    res = {'fails': [], 'npairs': 0, 'timeouts': 0, 'skipped': 0, 'rejected': 0, 'both_raise': {}, 'nonzero': False, 'model': [], 'model_fail': []}
+    res = {'fails': [], 'npairs': 0, 'timeouts': 0, 'skipped': 0, 'rejected': 0, 'evals': {}, 'both_raise': {}, 'nonzero': False, 'model': [], 'model_fail': []}
     rep = case.get('rep')
     cond = {'symmetric': sym, 'dtype': rep['dtype'] if rep else 'float64', 'order': rep['order'] if rep else 'C'}
     if kind in ('01u', '01d'):
@@ -250,18 +255,29 @@ def main():
                        "efficiency_wei(local='original') is documented not to generalise the binary variant and is not compared; local=True (Wang 2016) is",
                        'assortativity is compared for undirected input only (flag=0), as the property states',
                        'pairs where both variants raise the same exception kind (e.g. edge_nei_overlap on a graph whose edge has no other neighbour) carry no claim',
-                       'Lean theorems cover the clustering / transitivity / degree / strength clauses; the distance, betweenness, efficiency, assortativity and '
-                       'k-core clauses are established by this search on the real code only (their models and theorems are in the C03 / C08 / C15 slices)']
-    ck.trusted = TRUSTED_DEFAULT + ['distance_*/betweenness_*/edge_betweenness_*/efficiency_*/assortativity_*/kcore_* are not modelled here: those clauses rest on differential testing of the pairs']
+                       'Lean theorems cover the clustering / transitivity / degree / strength clauses (Cluster model) and, as corollaries of the C03 / C08 / C15 '
+                       'theorems about the Dist / Between / Core models, distance, global efficiency, betweenness, edge betweenness, distance_bin / reachdist / kcore '
+                       'weight-ignoring; local efficiency, assortativity, density, breadthdist, kcoreness, edge_nei_overlap, findwalks, get_components are predicate-only',
+                       'a call that hits the 2.5 s watchdog is re-tried once with 25 s; only a second timeout is a disagreement']
+    ck.trusted = TRUSTED_DEFAULT + ['the Dist / Between / Core models used by the imported corollaries are tied to /repo by the C03 / C08 / C15 checks, not by this one']
     ok = ck.lean_gate(['BctVerif.Props.C10'], extra_modules=['BctVerif.Model.Cluster'])
     if ck.tier == 'thorough' and ok:
         ck.leanchecker(['BctVerif.Props.C10', 'BctVerif.Model.Cluster'])
     if ck.replay:
-        cases = [json.load(open(ck.replay))['case']['case']]
+        cases = cc.replay_cases(ck.replay)
     else:
         cases = gen_cases(ck.rs, ck.tier)
     results = pmap(run_case, cases)
     lines, meta = [], []
+    ev, br = {}, {}
+    for r in results:
+        for k, v in r['evals'].items():
+            ev[k] = ev.get(k, 0) + v
+        for k, v in r['both_raise'].items():
+            br[k] = br.get(k, 0) + v
+    for k, v in sorted(br.items()):     # "both variants raise the same kind" is no claim only while it stays the exception
+        if v >= 5 and 2 * v > ev.get(k, 0):
+            ck.violation(k, 'raises', {'pair': k, 'why': 'both variants raise on %d of %d evaluations' % (v, ev.get(k, 0))}, {'pair': k, 'kind': 'both-raise'})
     for c, r in zip(cases, results):
         W, _ = cc.case_mats(c)
         ck.count('kind:' + c['kind']); ck.count('n=%d' % len(W)); ck.count('pairs evaluated', r['npairs']); ck.count('timeouts', r['timeouts']); ck.count('pairs skipped after repeated timeouts', r['skipped'])
@@ -297,4 +313,4 @@ def main():
 
 
 if __name__ == '__main__':
-    main()
+    cc.guarded(main)
